@@ -237,8 +237,32 @@ class CSym(object):
         m(n, env, tu)
 
     def s_CompoundStmt(self, n, env, tu):
-        for c in n.get("inner", []):
-            self.exec(c, env, tu)
+        pushed = 0
+        try:
+            for c in n.get("inner", []):
+                if c.get("kind") == "IfStmt" and len(c.get("inner", [])) == 2 and self._only_continue(c["inner"][1]) and id(n) in getattr(self, "loop_bodies", ()):
+                    # `if (cond) continue;` at the top level of a loop body: the rest of the body runs under not(cond)
+                    cond = self.truth(self.rvalue(c["inner"][0], env, tu))
+                    if cond is True:
+                        raise _Continue()
+                    if cond is False:
+                        continue
+                    self.guards.append(tm.mk_not(cond))
+                    pushed += 1
+                    continue
+                self.exec(c, env, tu)
+        finally:
+            for _ in range(pushed):
+                self.guards.pop()
+
+    @staticmethod
+    def _only_continue(n):
+        if n.get("kind") == "ContinueStmt":
+            return True
+        if n.get("kind") == "CompoundStmt":
+            inner = [x for x in n.get("inner", []) if x.get("kind") != "NullStmt"]
+            return len(inner) == 1 and inner[0].get("kind") == "ContinueStmt"
+        return False
 
     def s_NullStmt(self, n, env, tu):
         pass
@@ -604,6 +628,9 @@ class CSym(object):
         return assigned - declared
 
     def _generic(self, n, env, tu, var, cmp_, lo, hi, step, body, parallel, clauses):
+        if not hasattr(self, "loop_bodies"):
+            self.loop_bodies = set()
+        self.loop_bodies.add(id(body))
         lo_t, hi_t = tm.lift(lo), tm.lift(hi)
         if cmp_ == "<=":
             hi_t = hi_t + 1
